@@ -33,7 +33,7 @@ func TestSmoke(t *testing.T) {
 		n, _ = strconv.Atoi(v)
 	}
 	for i := 0; i < n; i++ {
-		res := RunOne(t, NewTape(seed+int64(i)), seed+int64(i), RunOpts{KeepLog: os.Getenv("KEEP") != ""})
+		res := RunOne(t, NewTape(seed+int64(i)), seed+int64(i), RunOpts{KeepLog: os.Getenv("KEEP") != "", Property: os.Getenv("KSIM_PROPERTY")})
 		fmt.Printf("seed=%d fam=%s n=%d steps=%v end=%s steps=%d sim=%.0fs writes=%d final=%s\n", res.Seed, res.Scenario.Family, res.Scenario.Replicas, res.Scenario.Steps, res.EndReason, res.Steps, res.SimSeconds, res.Writes, res.Final)
 		if os.Getenv("KEEP") != "" {
 			for _, l := range res.Trace {
